@@ -16,14 +16,17 @@ def cases(tier, seed):
     rng = gen.rng_for(seed, "c09")
     for i in range(120 if tier == "quick" else 2500):
         cd = gen.random_circuit(rng, n_in=rng.randint(1, 3), n_gates=rng.randint(1, 5), max_fanin=3, p_const=0.2,
-                                p_out=0.5, allow_input_output=rng.random() < 0.15)
+                                p_out=0.5, allow_input_output=rng.random() < 0.3)
+        if rng.random() < 0.25:
+            cd = gen.adversarial_rename(cd, rng)  # names the transform itself would derive from other nodes
+        if rng.random() < 0.3:
+            cd = gen.shuffle_nodes(cd, rng)  # node insertion order decides iteration order inside the library
         ins = [r[0] for r in cd["nodes"] if r[1] == "input"]
         outs = [r[0] for r in cd["nodes"] if r[2]]
         pairings = [{}]
         for k in outs:
             for v in ins:
-                if k != v:
-                    pairings.append({k: v})
+                pairings.append({k: v})   # k == v: a node that is input and output, paired with itself, holds its value
         if len(outs) >= 2 and len(ins) >= 2:
             for ks in itertools.permutations(outs, 2):
                 for vs in itertools.permutations(ins, 2):
@@ -84,6 +87,17 @@ def _seq_circuit(rng, nff, wide):
         edges.append([rng.choice(avail), f"ff{k}.d"])
     if not any(r[2] for r in nodes):
         nodes[-1][2] = True
+    if rng.random() < 0.3:
+        # ordinary io whose names end like a flop pin (sum_q, ext_d): they are not state
+        extra = rng.choice(["sum_q", "ext_q", "in_d", "x_q"])
+        if rng.random() < 0.5:
+            nodes.append([extra, "input", rng.random() < 0.5])
+            if gates:
+                nodes.append(["gx", "and", True])
+                edges += [[extra, "gx"], [gates[0], "gx"]]
+        else:
+            nodes.append([extra, "buf", True])
+            edges.append([rng.choice(avail), extra])
     return {"name": "seq", "nodes": nodes, "edges": edges, "bbs": bbs}
 
 
@@ -94,7 +108,12 @@ def _run_unroll(case):
     n, st = case["n"], case["state_io"]
     fails = []
     snap = circ.snapshot(c)
-    uc, io_map = cg.tx.unroll(c, n, dict(st))
+    res, bad = gen.guarded("unroll", lambda: cg.tx.unroll(c, n, dict(st)), list(c.graph.nodes))
+    if bad == "skip":
+        return {"nontrivial": False, "failures": []}
+    if bad:
+        return {"nontrivial": True, "failures": [bad]}
+    uc, io_map = res
     ins = sorted(c.inputs())
     outs = sorted(c.outputs())
     state_in = set(st.values())
@@ -150,8 +169,14 @@ def _run_seq(case):
     fails = []
     snap = circ.snapshot(c)
     ffs = sorted(c.blackboxes)
-    uc, io_map = cg.tx.sequential_unroll(c, n, "d", "q", ignore_pins=ign, add_flop_outputs=afo,
-                                         initial_values=(dict(iv) if isinstance(iv, dict) else iv), remove_unloaded=ru)
+    res, bad_ = gen.guarded("sequential_unroll", lambda: cg.tx.sequential_unroll(
+        c, n, "d", "q", ignore_pins=ign, add_flop_outputs=afo, initial_values=(dict(iv) if isinstance(iv, dict) else iv), remove_unloaded=ru),
+        list(c.graph.nodes))
+    if bad_ == "skip":
+        return {"nontrivial": False, "failures": []}
+    if bad_:
+        return {"nontrivial": True, "failures": [bad_]}
+    uc, io_map = res
     g = c.graph
     prim_in = sorted(x for x in g if g.nodes[x]["type"] == "input")
     prim_out = sorted(x for x in g if g.nodes[x].get("output"))
